@@ -130,10 +130,18 @@ def case_if_variant(src, which, annots):
     return expand('IF_RIGHT', annots, [a_some, [{'prim': 'DROP'}] + PUSH2]), [v], ('ok', [('int', 1 if v.is_right() else 2)])
 
 
-def case_dip(src, n, annots):
-    items = [_int(src, f's{i}') for i in range(n + 1)]
-    code = expand('D' + 'I' * n + 'P', annots, [[{'prim': 'DROP'}] + PUSH1])
-    exp = [mich.abstract(x) for x in items[:n]] + [('int', 1)]
+def case_dip(src, n, annots, inner=None):
+    if inner is None:
+        items = [_int(src, f's{i}') for i in range(n + 1)]
+        code = expand('D' + 'I' * n + 'P', annots, [[{'prim': 'DROP'}] + PUSH1])
+        exp = [mich.abstract(x) for x in items[:n]] + [('int', 1)]
+        return code, items, ('ok', exp)
+    # the code block of the macro is itself one DIP / DIP k: the replaced element sits n + k deep
+    k = 1 if inner == 'bare' else inner
+    items = [_int(src, f's{i}') for i in range(n + k + 1)]
+    body = {'prim': 'DIP', 'args': ([] if inner == 'bare' else [{'int': str(k)}]) + [[{'prim': 'DROP'}] + PUSH1]}
+    code = expand('D' + 'I' * n + 'P', annots, [[body]])
+    exp = [mich.abstract(x) for x in items[:n + k]] + [('int', 1)]
     return code, items, ('ok', exp)
 
 
@@ -266,7 +274,7 @@ def _case(P, src):
     if fam in FAMILIES:
         return FAMILIES[fam][0](src, arg, annots)
     if fam == 'DIP':
-        return case_dip(src, arg, annots)
+        return case_dip(src, arg, annots, P.get('inner'))
     if fam == 'DUP':
         return case_dup(src, arg, annots)
     if fam == 'PXR':
@@ -396,6 +404,10 @@ def obligations(tier):
     for n in range(2, 6):
         add(f'D{"I" * n}P', {'family': 'DIP', 'arg': n}, f'stack of {n + 1} symbolic values')
         add(f'D{"U" * n}P', {'family': 'DUP', 'arg': n}, f'stack of {n} symbolic values')
+        if n <= 3:
+            for inner in ('bare', 1, 2):
+                add(f'D{"I" * n}P' + '{DIP' + ('' if inner == 'bare' else f' {inner}') + '}', {'family': 'DIP', 'arg': n, 'inner': inner},
+                    'the code block is a single DIP / DIP k; symbolic stack')
     for name, tree in pair_trees(5 if q else 6):
         add(f'{name}+UN{name}', {'family': 'PXR', 'arg': name, 'tree': tree}, 'symbolic leaves; the tree built and UNPxR o PxR = identity')
         obs.append(Ob(f'{name}/annotation-placement', 'bvx', sym_pxr_annots, conc_pxr_annots, {'arg': name, 'n': _n_leaves(tree)}, timeout=t,
@@ -404,6 +416,7 @@ def obligations(tier):
             add(f'{name}+annots', {'family': 'PXR', 'arg': name, 'tree': tree, 'annots': ['%a', '%b', '%c']}, 'same with field annotations')
     for p in _paths(2, 3 if q else 4):
         add(f'C{p}R', {'family': 'CXR', 'arg': p}, 'pair tree following the path, symbolic components')
+        add(f'C{p}R+annot', {'family': 'CXR', 'arg': p, 'annots': ['%x']}, 'the same with a field annotation on the macro')
     for p in _paths(1, 3):
         add(f'SET_C{p}R', {'family': 'SET_CXR', 'arg': p}, 'pair tree following the path, symbolic components')
         add(f'MAP_C{p}R', {'family': 'MAP_CXR', 'arg': p}, 'pair tree following the path, body reads the stack below the pair')
